@@ -233,6 +233,21 @@ impl Property for C20 {
                 for s in cands {
                     self.parse_one(acc, i, &s, &named);
                 }
+                // EVERY Unicode scalar value as the middle character of an otherwise valid unknown name (1.1 million
+                // conversions): only ASCII letters, `_` and `-` may be accepted
+                for cp in 0..=0x10ffffu32 {
+                    let Some(ch) = char::from_u32(cp) else { continue };
+                    let valid = ch.is_ascii_alphabetic() || ch == '_' || ch == '-';
+                    let name = format!("Ab{}cd", ch);
+                    acc.inc("characters_swept");
+                    match (Tag::try_from(name.as_str()), valid) {
+                        (Ok(t), false) => {
+                            acc.violation(i, None, format!("Tag::try_from({:?}) accepts U+{:04X}, a character the protocol cannot carry in a field name (result {:?})", name, cp, t), J::Null);
+                        }
+                        (Err(e), true) => acc.violation(i, None, format!("Tag::try_from({:?}) rejects a valid name: {}", name, e), J::Null),
+                        _ => {}
+                    }
+                }
                 acc.inc("parse_exhaustive_done");
             }
             4 => {
